@@ -1053,3 +1053,51 @@ func CrashImages(init map[string]string, trace []FsOp, p int) []Image {
 	}
 	return images
 }
+
+// DirFS replaces os.DirFS: a read-only fs.FS rooted at dir on the simulated
+// file system (names are checked with fs.ValidPath like os.DirFS does, so a
+// name that climbs out of the root is "invalid argument"); outside the
+// simulation the real one.
+func DirFS(dir string) fs.FS {
+	if theFS() == nil {
+		return os.DirFS(dir)
+	}
+	return simDirFS(dir)
+}
+
+type simDirFS string
+
+func (d simDirFS) join(op, name string) (string, error) {
+	if !fs.ValidPath(name) {
+		return "", &fs.PathError{Op: op, Path: name, Err: fs.ErrInvalid}
+	}
+	return path.Join(string(d), name), nil
+}
+
+func (d simDirFS) Open(name string) (fs.File, error) {
+	p, err := d.join("open", name)
+	if err != nil {
+		return nil, err
+	}
+	f, err := Open(p)
+	if err != nil {
+		return nil, err
+	}
+	return f, nil
+}
+
+func (d simDirFS) ReadFile(name string) ([]byte, error) {
+	p, err := d.join("readfile", name)
+	if err != nil {
+		return nil, err
+	}
+	return ReadFile(p)
+}
+
+func (d simDirFS) Stat(name string) (fs.FileInfo, error) {
+	p, err := d.join("stat", name)
+	if err != nil {
+		return nil, err
+	}
+	return Stat(p)
+}
